@@ -3,6 +3,7 @@ pub mod fntable;
 pub mod keykeeper;
 pub mod lifecycle;
 pub mod provision;
+pub mod realmaps;
 pub mod rig;
 pub mod robust;
 pub mod status;
